@@ -19,11 +19,12 @@ Variants == {<<FALSE, 0, FALSE>>, <<TRUE, 0, FALSE>>, <<TRUE, 1, TRUE>>, <<FALSE
 Choose == /\ phase = "grow"
           /\ \E name \in BCtxNames, lit \in BOOLEAN, ch \in {"strip", "clip", "keep"}, ex \in {0, 2, 13}, v \in Variants, en \in {"nl", "none", "follow"} :
                /\ (ex = 13 => (name = "mapvalue" /\ ~v[1]))                                \* the deep indentation family (>= buffer size - 2)
-               /\ (name \in {"top", "topdoc"} => (~v[1] /\ en # "follow"))                 \* no indicator at top level (see DESIGN); nothing can follow
+               /\ (name \in {"top", "topdoc"} => ~v[1])                                   \* no indicator at top level (see DESIGN)
                /\ ((NeedsIndicator(ls) = TRUE) => v[1])
                /\ (((\E i \in 1..Len(ls) : LooksLikeMarker(ls[i])) = TRUE) => BCtx(name).n + 1 + ex >= 1)   \* at column 0 such a line is a real marker
                /\ (v[1] => BCtx(name).n + 1 + ex - (IF BCtx(name).n < 0 THEN 0 ELSE BCtx(name).n) <= 9)
-               /\ (en = "none" => (ls # <<>> /\ ~IsEmpty(ls[Len(ls)])))                      \* an unterminated last line must be a content line
+               \* an unterminated last line is a content line, or (not under keep, where the readings differ) blanks only
+               /\ (en = "none" => (ls # <<>> /\ (~IsEmpty(ls[Len(ls)]) \/ (ls[Len(ls)].sp >= 1 /\ ch # "keep"))))
                /\ par' = [name |-> name, literal |-> lit, chomp |-> ch, extra |-> ex, explicit |-> v[1], order |-> v[2], comment |-> v[3], ending |-> en]
           /\ phase' = "done" /\ UNCHANGED ls
 Next == Grow \/ Choose
